@@ -127,15 +127,19 @@ class Run:
             raise Infra("domain export failed:\n" + out[-3000:])
 
     # -- spec-only model checking -------------------------------------------
-    def model_check(self, module, cfg=None, workers=16, heap="6g", timeout=3600, extra=()):
+    def model_check(self, module, cfg=None, workers=16, heap="6g", timeout=3600, extra=(), expect_violation=False):
         d = os.path.join(self.work, "mc_" + (cfg or module).replace(".cfg", ""))
         copy_spec(d)
         t = time.time()
         rc, out = run_tlc(d, module, cfg, workers=workers, heap=heap, timeout=timeout, extra=extra)
         gen, dist = tlc_stats(out)
         ok = tlc_ok(out)
+        if expect_violation:
+            # negative control: the model of the defective variant MUST be rejected by TLC
+            ok = ("Temporal properties were violated" in out) or ("is violated" in out)
         self.mc.append({"module": module, "cfg": cfg or module + ".cfg", "ok": ok, "generated": gen,
-                        "distinct": dist, "wall_s": round(time.time() - t, 1)})
+                        "distinct": dist, "wall_s": round(time.time() - t, 1),
+                        "negative_control": bool(expect_violation)})
         self.states += dist
         self.transitions += gen
         shutil.rmtree(d, ignore_errors=True)
